@@ -144,7 +144,9 @@ func (b *Body) PartialContent(schema *hcl.BodySchema) (*hcl.BodyContent, hcl.Bod
 	for _, attrS := range schema.Attributes {
 		name := attrS.Name
 		attr, exists := b.Attributes[name]
-		_, hidden := hiddenAttrs[name]
+		// (hidden by an earlier call, that is; a schema that names the same
+		// attribute twice still finds it)
+		_, hidden := b.hiddenAttrs[name]
 		if hidden || !exists {
 			if attrS.Required {
 				diags = append(diags, &hcl.Diagnostic{
